@@ -67,3 +67,15 @@ package repository
 //@   modifies nothing
 //@ func RepoClock.Increment
 //@   modifies nothing
+
+// A valid hash is 40 or 64 lower-case hexadecimal characters (C17: a scalar that is not one is refused).
+//@ spec func isLowerHex(c int) bool = (c >= 48 && c <= 57) || (c >= 97 && c <= 102)
+//@ func (*Hash).IsValid
+//@   props C17
+//@   nopanic
+//@   requires h != nil
+//@   modifies nothing
+//@   ensures [valid-iff-hex] result == ((len(*h) == 40 || len(*h) == 64) && (forall k int :: { (*h)[k] } 0 <= k && k < len(*h) ==> isLowerHex((*h)[k])))
+//@   loop 1
+//@     invariant 0 <= rangepos && rangepos <= len(*h)
+//@     invariant forall k int :: { (*h)[k] } 0 <= k && k < rangepos ==> isLowerHex((*h)[k])
